@@ -2,7 +2,7 @@
    Only pinned statements, closed by [exact lemma], with Print Assumptions. *)
 From Coq Require Import List NArith Bool.
 From FT Require Import Model.Base Model.Local Model.LocalProg Model.Records Model.Collector Model.System
-     Proofs.LocalProofs Proofs.ApiProofs.
+     Model.Spsc Proofs.LocalProofs Proofs.ApiProofs Proofs.DrainProofs Proofs.EndToEndProofs Proofs.WholeProofs.
 Import ListNotations.
 Open Scope N_scope.
 
@@ -59,8 +59,31 @@ Theorem C13_final_poll_in_trace :
                     end.
 Proof. exact pollend_guard_before_span. Qed.
 
+(* OVER THE SCHEDULER.  The completing poll (or close) of an adapter, made while the thread's
+   sender is idle and its ring has room: what the guard submits (the local spans of this poll)
+   comes first in what the call hands over, then the span's own submit and, for a root, its
+   commit (above); and after ANY history in which the thread only pushes while all other
+   threads and the collector do what they like, all of it has landed -- in that order (C09:
+   control commands and the thread's ring are FIFO).  With C03_landed_trace_is_reported_whole /
+   C01_landed_command_is_reported_within_two_cycles: what was recorded during the final poll is
+   reported with the trace, also when the span is the root and the configuration cancelable. *)
+Theorem C13_final_poll_lands_whole :
+  forall s t a m r th s1 th1 e1 out res h,
+    tracked s ->
+    get_thread s t = Some th -> th_outbox th = [] ->
+    ch_pending (th_chan th) = [] -> ch_dropping (th_chan th) = false ->
+    exec_call (s_tick s) th (mkEnv (th_prefix th) (th_suffix th) (clock_of_step (s_nstep (s_tick s)))) (KPollEnd a m r)
+      = COk s1 th1 e1 out res ->
+    lenN (ch_ring (th_chan th)) + lenN out <= ch_cap (th_chan th) ->
+    all_quiet t h ->
+    let s' := fst (run s (ACall t (KPollEnd a m r) :: h)) in
+    (forall th', get_thread s' t = Some th' -> th_outbox th' = []) ->
+    forall cmd, In cmd (map snd out) -> landed t cmd s'.
+Proof. intros s t a m r. exact (call_commands_land s t (KPollEnd a m r)). Qed.
+
 Print Assumptions C13_parent_during_poll.
 Print Assumptions C13_poll_restores_context.
 Print Assumptions C13_takes_table.
 Print Assumptions C13_span_taken_exactly_then.
 Print Assumptions C13_final_poll_in_trace.
+Print Assumptions C13_final_poll_lands_whole.
